@@ -163,3 +163,7 @@ package nsx
 //vc:func sortRules$5
 //vc:  assert[C04] at "groupCmp(a.SourceGroups[0], b.SourceGroups[0])" @tieBrokenByAllAddresses true
 //vc:  assert[C04] at "return groupCmp(a.DestinationGroups[0], b.DestinationGroups[0])" @tieBrokenByAllDestinationAddresses true
+
+// C20 termination kernel: every iteration removes one header line
+//vc:func removeHeader
+//vc:  decreases[C20] 1 "for {" len(data)
